@@ -193,7 +193,7 @@ UnionMatrix(u) == IF u.isMat THEN u.mat ELSE Matrix(u.acc)
 \* to_sketch: re-encode the matrix at the correct offset, marked as merged
 ToSketch(u) ==
   IF ~u.isMat
-  THEN IF u.acc.c = 0 THEN NewCpc(u.lgk) ELSE [u.acc EXCEPT !.merged = TRUE]
+  THEN IF u.acc.c = 0 THEN [NewCpc(u.lgk) EXCEPT !.merged = TRUE] ELSE [u.acc EXCEPT !.merged = TRUE]
   ELSE LET k == P2(u.lgk)  c == CountBits(u.mat)  off == CorrectOffset(k, c)
            t == EncTab(u.mat, off, k) IN
        [lgk |-> u.lgk, c |-> c, off |-> off, fic |-> EncFic(t, off), win |-> EncWin(u.mat, off, k),
